@@ -151,6 +151,8 @@ def vocab(const_names):
             "Self": f_self_ctor,
         },
         "methods": {("EffectIndexIter", "enumerate"): m_index_iter_enumerate},
+        # `for x in <EffectIndexIter>` (no `.enumerate()`): the items of the translated `next`
+        "iter_conv": {"EffectIndexIter": ("iter_drain g_eff_index_iter_next (S (length metadata))", True, USZ)},
         "macros": {"write": m_write},
         "macro_writes": macro_writes,
         "fuel": {"EffectIter::next": [iter_fuel], "EffectIndexIter::next": [iter_fuel]},
